@@ -15,7 +15,7 @@ RULES = {   # property -> [(finding id, predicate over [construct, slot, kind, c
   ('F-30', lambda x: 'attrpath' in x[0] and 'does not parse' in x[4], 'binding.py: a line comment inside an attrpath is re-emitted without the line break that ends it', 'a line comment between an attrpath segment and the following dot swallows the rest of the binding (the comment absorbs code; the output does not parse)'),
   ('F-40', lambda x: x[2] in ('two_b', 'b_then_eol_c', 'two_own_b'), 'trivia.py/function definition: a second comment on the line of a first one is re-attached (inline to the previous item) or replaces the first', 'two comments in one gap: the first is dropped (after a lambda colon) or the two swap places'),
   ('F-44', lambda x: x[0] in ('let_empty', 'let_empty_set') and x[1] == 'let|in', 'let.py: a binding-less `let in` is elided together with the trivia between `let` and `in`', 'a comment between `let` and `in` of a binding-less let is dropped when the wrapper is elided'),
-  ('F-03', lambda x: x[0] in ('empty_formals_at', 'assert_list', 'assert_set', 'select_set', 'inherit_in_let', 'assert', 'assert_multi', 'inherit', 'inherit_multi', 'inherit_from', 'lambda_at', 'lambda_at_pre', 'select', 'select_or'), 'comments in the gaps of select paths, `or` defaults, @-patterns, `inherit` heads/tails and after `assert c;` are not captured by the readers (dropped) or are re-attached after the following token', 'a comment in one of the listed gaps is dropped or moves to the other side of a code token'),
+  ('F-03', lambda x: x[0] in ('empty_formals_at', 'assert_list', 'assert_set', 'select_set', 'inherit_in_let', 'assert', 'assert_multi', 'inherit', 'inherit_multi', 'inherit_from', 'lambda_at', 'lambda_at_pre', 'select', 'select_or') or (x[0] == 'dup_attrpath_inherit' and x[1].endswith('|;')), 'comments in the gaps of select paths, `or` defaults, @-patterns, `inherit` heads/tails and after `assert c;` are not captured by the readers (dropped) or are re-attached after the following token', 'a comment in one of the listed gaps is dropped or moves to the other side of a code token'),
   ('F-49', lambda x: x[3] == 'lead_ws', 'source_code.py:from_cst reads the gaps from the root node\'s text (which starts at the first token) with absolute offsets: in a file that begins with whitespace every gap is read at a shifted position; two existing tests pin a consequence (no final newline for inputs starting with a line break), so the one-line repair cannot be made with the suite unedited', 'in a file that begins with whitespace, line breaks after comments and blank lines are misread: a line comment swallows the code after it (`   (a # c\\n)` becomes `(a # c)`), comments move, layout is not stable'),
  ],
  'C06': [
